@@ -32,6 +32,9 @@ func StartDriver(path string) (*Driver, error) {
 }
 
 func (d *Driver) Ask(line string) string {
+	if d == nil {
+		return "driver-unavailable"
+	}
 	if strings.ContainsAny(line, "\n\r") {
 		return "driver-error: newline in request"
 	}
@@ -46,6 +49,9 @@ func (d *Driver) Ask(line string) string {
 }
 
 func (d *Driver) Close() {
+	if d == nil {
+		return
+	}
 	d.in.Close()
 	if err := d.cmd.Wait(); err != nil {
 		fmt.Println("driver exit:", err)
